@@ -74,6 +74,8 @@ int main(int argc, char** argv)
     std::string line;
     long n = 0, nfail = 0, ngrids = 0, ncache = 0;
     const bool cacheMode = argc > 2 && std::string(argv[2]) == "cache";
+    const char* fileDir  = argc > 3 ? argv[3] : nullptr; // scratch directory: also build every grid through the grid-file constructor
+    long nfilegrids      = 0;
     while (std::getline(in, line)) {
         if (line.empty())
             continue;
@@ -113,6 +115,23 @@ int main(int argc, char** argv)
                 PolarGrid G(rad, ang, s);
                 ngrids++;
                 fail = chk(t, G, unit, aunit);
+                if (fail.empty() && fileDir != nullptr) { // the grid-file constructor is a second implementation of the same set-up
+                    std::string fr = std::string(fileDir) + "/g_radii.txt", fa = std::string(fileDir) + "/g_angles.txt";
+                    {
+                        std::ofstream o(fr), q(fa);
+                        o.precision(18);
+                        q.precision(18);
+                        for (double r : rad)
+                            o << std::fixed << r << "\n";
+                        for (double a : ang)
+                            q << std::fixed << a << "\n";
+                    }
+                    PolarGrid F(fr, fa, s);
+                    fail = chk(t, F, unit, aunit);
+                    if (!fail.empty())
+                        fail = "grid-file constructor: " + fail;
+                    nfilegrids++;
+                }
                 if (!fail.empty()) {
                     fail += s.has_value() ? " (splitting radius " + std::to_string(*s) + ")" : " (automatic split)";
                     break;
@@ -194,6 +213,6 @@ int main(int argc, char** argv)
                           << ",\"what\":\"" << mj::escape(fail) << "\",\"rad\":" << "[]" << "}" << std::endl;
         }
     }
-    std::cout << "{\"summary\":true,\"tables\":" << n << ",\"grids\":" << ngrids << ",\"caches\":" << ncache << ",\"failed\":" << nfail << "}" << std::endl;
+    std::cout << "{\"summary\":true,\"tables\":" << n << ",\"grids\":" << ngrids << ",\"caches\":" << ncache << ",\"file_grids\":" << nfilegrids << ",\"failed\":" << nfail << "}" << std::endl;
     return 0;
 }
